@@ -219,12 +219,11 @@ type memBatch struct {
 
 func (b *memBatch) Put(key, value []byte) error {
 	b.ops = append(b.ops, bop{key: cp(key), val: cp(value)})
-	b.size += len(key) + len(value)
+	b.size += len(value) // like the leveldb/pebble batches: value bytes only
 	return nil
 }
 func (b *memBatch) Delete(key []byte) error {
-	b.ops = append(b.ops, bop{del: true, key: cp(key)})
-	b.size += len(key)
+	b.ops = append(b.ops, bop{del: true, key: cp(key)}) // a delete adds no value bytes
 	return nil
 }
 func (b *memBatch) ValueSize() int { return b.size }
